@@ -364,7 +364,7 @@ def run_check(modname: str, tier: str, replay: Optional[str] = None) -> int:
             "bounds": engine.bounds,
             "shards": nshards,
             "known_findings_seen": sorted(s for s in total.viol if s in known),
-            "exhaustive": bool(isinstance(tiers.get("sweep"), dict) and tiers["sweep"]["exhaustive"]) and False,
+            "exhaustive": False,   # the random tier never is; see sweep_exhaustive for the enumerated sub-space
             "python": sys.version.split()[0],
             "tree": REPO,
         },
